@@ -170,6 +170,23 @@ def pureToy (otype : Nat) (dither : Bool) (h : ¬ (otype = 3 ∧ dither = true))
       · simp [h3]
       · simp [h2, h3]
 
+theorem ditherAll_seed (fuel : Nat) : ∀ (ys zs : List Int) (seed : Nat), ys.length = zs.length →
+    (ditherAll fuel ys seed).2.2 = (ditherAll fuel zs seed).2.2 := by
+  induction fuel with
+  | zero => intro ys zs seed _; rfl
+  | succ f ih =>
+    intro ys zs seed h
+    simp only [ditherAll, h]
+    split
+    · rfl
+    · exact ih _ _ _ (by simp [h])
+
+/-- the dithering conversion advances the seed by a function of (seed, number of samples) only -/
+theorem dither_seed_len (seed : Nat) (ys : List Int) :
+    (toyCout 3 true seed ys).2.2 = (ditherAll (ys.length / 16 + 1) (List.replicate ys.length 0) seed).2.2 := by
+  simp only [toyCout]
+  exact ditherAll_seed _ _ _ _ (by simp)
+
 /-- the model configuration of a toy job -/
 def cfg (ch : Nat) (isplit osplit : Bool) (otype : Nat) (dither : Bool) (m l : Nat) (vr : Bool) : Cfg Int Int where
   ch := ch
